@@ -82,6 +82,15 @@ for rep in range(2):
         print("update", rep + 1, "array", i, "real", reals, "ghosts", ghosts, "expected", exp)
         if len(reals) != n:
             bad = "array %%d has %%d real particles after update %%d (expected %%d)" %% (i, len(reals), rep + 1, n)
+        for (uid, x, y) in reals:
+            k = uid - 100*i
+            for ax, got, orig, lo, hi in (("x", x, arrays[i]["x"][k], box[0], box[1]), ("y", y, arrays[i]["y"][k], box[2], box[3])):
+                if ax in cfg["periodic"]:
+                    L = hi - lo
+                    if not (lo - 1e-9*L <= got <= hi + 1e-9*L) or min(abs(got - orig - s*L) for s in (-1, 0, 1)) > 1e-9*L:
+                        bad = "array %%d particle %%d: %%s=%%r after the update (was %%r, box [%%r, %%r])" %% (i, k, ax, got, orig, lo, hi)
+                elif ax in "xy"[:cfg["dim"]] and abs(got - orig) > 1e-12*(1 + abs(orig)):
+                    bad = "array %%d particle %%d: %%s changed from %%r to %%r" %% (i, k, ax, orig, got)
         if ghosts != exp:
             bad = "array %%d update %%d: ghosts %%r, documented images %%r" %% (i, rep + 1, ghosts, exp)
 sys.exit(common.replay_exit(bad))
